@@ -524,6 +524,14 @@ func (f *Firewall) inConns(fp firewall.Packet, h *HostInfo, caPool *cert.CAPool,
 		return false
 	}
 
+	// The timer wheel only turns when flows are added or evicted, so an idle table never expires anything on its
+	// own. Do not honour an entry whose timeout has already passed, the wheel will find nothing left to evict.
+	if c.Expires.Before(time.Now()) {
+		delete(conntrack.Conns, fp)
+		conntrack.Unlock()
+		return false
+	}
+
 	if c.rulesVersion != f.rulesVersion {
 		// This conntrack entry was for an older rule set, validate
 		// it still passes with the current rule set
